@@ -177,6 +177,34 @@ def split_evals(out):
 class Violation(Exception):
     pass
 
+def coq_parallelism():
+    """number of coqc processes to run side by side: bounded by cores and by the memory that is really available
+    (a vm_compute shard on exact rationals can take 1-2 GB), also under a cgroup limit"""
+    par = min(16, os.cpu_count() or 4)
+    try:
+        avail = None
+        for line in open('/proc/meminfo'):
+            if line.startswith('MemAvailable:'):
+                avail = int(line.split()[1]) * 1024
+        for f in ('/sys/fs/cgroup/memory.max', '/sys/fs/cgroup/memory/memory.limit_in_bytes'):
+            if os.path.exists(f):
+                v = open(f).read().strip()
+                if v.isdigit():
+                    lim = int(v)
+                    used = 0
+                    for g in ('/sys/fs/cgroup/memory.current', '/sys/fs/cgroup/memory/memory.usage_in_bytes'):
+                        if os.path.exists(g):
+                            used = int(open(g).read().strip())
+                            break
+                    avail = min(avail, lim - used) if avail is not None else lim - used
+        if avail is not None:
+            par = max(2, min(par, int(avail / 2.0e9)))
+    except Exception:
+        pass
+    return par
+
+
+
 class Ctx:
     def __init__(self, prop, tier, seed, replay=None):
         import numpy as np
@@ -257,7 +285,14 @@ class Ctx:
     def coqc(self, vfile, extra_R=None, timeout=600):
         """compile a .v file that lives under build/<prop>; returns (ok, output)"""
         cmd = ['timeout', str(timeout), 'coqc', '-noglob', '-R', COQ, 'Kawin', '-R', self.build, 'KawinRun', vfile]
-        r = subprocess.run(cmd, capture_output=True, text=True, cwd=self.build)
+        for attempt in range(3):
+            r = subprocess.run(cmd, capture_output=True, text=True, cwd=self.build)
+            # killed by a signal (out-of-memory killer) or stopped by `timeout` on an overloaded machine, without a
+            # Coq error message: not a verdict of the kernel - try again (a genuine `Error:` is never retried)
+            if r.returncode in (0, 1) or 'Error' in (r.stdout + r.stderr):
+                break
+            self.notes['coqc_retries'] = self.notes.get('coqc_retries', 0) + 1
+            time.sleep(5 * (attempt + 1))
         out = '\n'.join(l for l in (r.stdout + r.stderr).splitlines() if 'WARNING' not in l and 'conda' not in l)
         return r.returncode == 0, out
 
@@ -350,10 +385,11 @@ class Ctx:
             files.append(path)
         procs = []
         results = []
-        maxpar = 16
+        maxpar = coq_parallelism()
         outs = [None] * len(files)
         idx = 0
         running = []
+        retry = []
         while idx < len(files) or running:
             while idx < len(files) and len(running) < maxpar:
                 cmd = ['timeout', str(timeout), 'coqc', '-noglob', '-R', COQ, 'Kawin', '-R', self.build, 'KawinRun', files[idx]]
@@ -363,8 +399,23 @@ class Ctx:
             i, p = running.pop(0)
             o, e = p.communicate()
             if p.returncode != 0:
+                if p.returncode != 1 and 'Error' not in (o + e):
+                    # killed (out of memory) or timed out on an overloaded machine: evaluate this shard again, alone, at the end
+                    retry.append(i)
+                    continue
                 raise RuntimeError('model evaluation failed in %s (exit status %d%s): %s' % (files[i], p.returncode, ', timed out' if p.returncode == 124 else '', e[-600:]))
             outs[i] = o
+        for i in retry:
+            self.notes['coqc_retries'] = self.notes.get('coqc_retries', 0) + 1
+            cmd = ['timeout', str(2 * timeout), 'coqc', '-noglob', '-R', COQ, 'Kawin', '-R', self.build, 'KawinRun', files[i]]
+            for attempt in range(2):
+                r = subprocess.run(cmd, capture_output=True, text=True, cwd=self.build)
+                if r.returncode == 0 or r.returncode == 1 or 'Error' in (r.stdout + r.stderr):
+                    break
+                time.sleep(20)
+            if r.returncode != 0:
+                raise RuntimeError('model evaluation failed in %s (exit status %d%s, also when evaluated alone): %s' % (files[i], r.returncode, ', timed out' if r.returncode == 124 else '', r.stderr[-600:]))
+            outs[i] = r.stdout
         for o in outs:
             for blk in split_evals(o):
                 results.append(parse_coq(blk))
